@@ -160,9 +160,22 @@ SliceK ==
           vb \in {<<>>, ValOf("any", "std"), ValOf("any", "custom")},
           tr \in {<<"Debug", "Clone", "PartialEq">>, <<"Serialize", "Deserialize">>, <<"Debug", "AsRef", "Deref", "Borrow", "TryFrom">>, <<"Debug", "IntoIterator">>, <<"Debug", "Arbitrary">>}}
 
+\* ---- slice L: generic forms (type parameters with and without bounds, lifetimes) x derivable traits x flags:
+\* every generated impl must carry the declared parameters and bounds
+GenForms == {<< <<"T">>, "Vec<T>" >>, << <<"T: Ord">>, "Vec<T>" >>, << <<"T: Ord + Clone">>, "Vec<T>" >>,
+             << <<"'a">>, "::std::borrow::Cow<'a, [i32]>" >>, << <<"'a", "T: Clone">>, "::std::borrow::Cow<'a, [T]>" >>}
+LTraits == {<<"Debug">>, <<"Clone">>, <<"PartialEq">>, <<"PartialEq", "Eq">>, <<"PartialEq", "PartialOrd">>,
+            <<"PartialEq", "Eq", "PartialOrd", "Ord">>, <<"Hash">>, <<"AsRef">>, <<"Deref">>, <<"Borrow">>, <<"Into">>,
+            <<"From">>, <<"TryFrom">>, <<"Serialize">>, <<"Deserialize">>, <<"Arbitrary">>, <<"IntoIterator">>,
+            <<"Debug", "Clone", "PartialEq", "Eq", "PartialOrd", "Ord", "Hash", "AsRef", "Deref", "Borrow", "Into", "TryFrom", "Serialize", "Deserialize">>}
+SliceL ==
+  {[Src("any", sb \o vb \o <<DerB(tr)>> \o nu, AllFeats) EXCEPT !.tparams = g[1], !.ty = g[2]] :
+     g \in GenForms, tr \in LTraits, vb \in {<<>>, ValOf("any", "std"), ValOf("any", "custom")},
+     sb \in {<<>>, <<SanB(<<S("with")>>)>>}, nu \in {<<>>, <<Blk("new_unchecked")>>}}
+
 IsG(src) == src \in SliceG
 
-SrcSet == SliceG \cup SliceK \cup SliceT \cup SliceB \cup SliceS \cup SliceF \cup SliceN \cup SliceM \cup SliceV \cup SliceR
+SrcSet == SliceG \cup SliceK \cup SliceL \cup SliceT \cup SliceB \cup SliceS \cup SliceF \cup SliceN \cup SliceM \cup SliceV \cup SliceR
 MCSrcSeq == SetToSeq(SrcSet)
 
 -----------------------------------------------------------------------------
